@@ -61,6 +61,7 @@ type produceRec struct {
 	base        int64
 	inc         string
 	durable     bool // was found in S3 when acknowledged
+	task        string // broker-side request task (write attribution)
 }
 
 type fetchRec struct {
@@ -115,6 +116,7 @@ type w1 struct {
 	health   healthWatch
 	primHist map[string][]objVersion
 	replSeq  int
+	accepted map[string]bool
 }
 
 func discardLogger() *slog.Logger { return slog.New(slog.NewTextHandler(io.Discard, nil)) }
@@ -334,7 +336,7 @@ func footerLast(data []byte) (int64, bool) {
 // ---------------------------------------------------------------- run
 
 func w1Run(t *testing.T, c *simrt.Case, prop string, keepTrace bool) simrt.Result {
-	w := &w1{c: c, prop: prop, segMax: map[string]int64{}, hwLast: map[string]int64{}, segCache: map[string][]*kbatch.Batch{}, primHist: map[string][]objVersion{}}
+	w := &w1{c: c, prop: prop, segMax: map[string]int64{}, hwLast: map[string]int64{}, segCache: map[string][]*kbatch.Batch{}, primHist: map[string][]objVersion{}, accepted: map[string]bool{}}
 	res := simrt.Run(t, c, keepTrace, func(s *simrt.Sim) {
 		w.sim = s
 		w.setup()
@@ -461,7 +463,7 @@ func w1TopicName(i int, alias bool) string {
 	if !alias {
 		return fmt.Sprintf("t%d", i)
 	}
-	return [...]string{"a", "a/0", "a.b", "a:0", "b..", "A"}[i%6]
+	return w1AliasNames[i%len(w1AliasNames)]
 }
 
 func (w *w1) node(i int64) *bnode { return w.nodes[int(i)%len(w.nodes)] }
@@ -485,6 +487,8 @@ func (w *w1) clientOp(client, seq int, op simrt.Op) {
 		w.opVerify(client)
 	case "health-meta":
 		w.opHealthMeta(op)
+	case "create-topic":
+		w.opCreateTopic(client, op)
 	default:
 		w1ExtraOp(w, client, seq, op)
 	}
@@ -511,6 +515,7 @@ func (w *w1) opProduce(client, seq int, op simrt.Op) {
 	n := w.node(int64(client))
 	rec.invoke = w.sim.Step()
 	rec.inc = n.inc
+	rec.task = fmt.Sprintf("%s/req%04d", n.inc, n.reqSeq+1)
 	w.ledger = append(w.ledger, rec)
 	req := kmsg.NewPtrProduceRequest()
 	req.Version = int16(w.cfg("produce_version", 9))
